@@ -17,6 +17,8 @@ def main(tier):
     fam = diffcheck.Family(run, S, "C06")
     rng = random.Random(run.seed)
     items = gen.hybrid_programs(rng, 160 if tier == "quick" else 2500)
+    # value-producing operations in folded-away arms followed by further ones (numbering and guards of the surviving operations)
+    items += [dict(it, name="fold;" + it["name"]) for it in gen.fold_programs(random.Random(run.seed), 12) if it["name"].startswith(("dead;hyb", "dead;postfix", "dead;call", "dead;se"))]
     # the same placements on an aged compiler (temporaries numbered 9, 10, 99, 100 ... : names that sort differently)
     aged_items = []
     for it in items:
